@@ -306,6 +306,21 @@ def _body_stmts(stmts) -> Iterator[ast.stmt]:
 
 
 class Index:
+    @classmethod
+    def from_sources(cls, sources: Dict[str, str]) -> "Index":
+        """An index over the given sources only (used by detector self-tests)."""
+        self = cls.__new__(cls)
+        self.root = "<memory>"
+        self.modules, self.by_path, self.classes_by_name, self.funcs, self.methods_by_name = {}, {}, {}, {}, {}
+        for p, src in sorted(sources.items()):
+            m = Module(p, src)
+            self.modules[m.name] = m
+            self.by_path[p] = m
+        for m in self.modules.values():
+            self._index_module(m)
+        self._link_classes()
+        return self
+
     def __init__(self, root: str = REPO, overlay: Optional[Dict[str, str]] = None,
                  include_pyspark: bool = True):
         self.root = root
